@@ -619,6 +619,330 @@ def run_l2(ctx, case, exprs, checks):
                                   predicate='every row of the listed files exactly once, in file order')
 
 
+# ---------------------------------------------------------------- history probes
+# Metamorphic probes on the REAL objects (no model needed): the result of a load
+# is a function of the files and the arguments of THAT call only.  One loader /
+# one Dataset used for several calls, other calls interleaved, two instances built
+# before first use (also two Datasets sharing one Config), arguments snapshotted,
+# results owned by the caller, files unchanged on disk.
+import copy as _copy
+import hashlib as _hashlib
+
+
+def _file_hashes(paths):
+    out = []
+    for p in paths:
+        try:
+            with open(p, 'rb') as f:
+                out.append(_hashlib.sha1(f.read()).hexdigest())
+        except OSError:
+            out.append(None)
+    return out
+
+
+def permute_spec(fs, rng):
+    """the same table with the columns in another order"""
+    if fs is None:
+        return None
+    k = len(fs['sch'])
+    perm = list(range(k))
+    rng.shuffle(perm)
+    out = {'sch': [list(fs['sch'][j]) for j in perm]}
+    if 'rows' in fs:
+        out['rows'] = [[r[j] for j in perm] for r in fs['rows']]
+    else:
+        out['coef'] = [list(fs['coef'][j]) for j in perm]
+        out['n'] = fs['n']
+    return out
+
+
+def _loader_call(ldr, keep_s, conv_d, exc_s, mode):
+    from skyllh.core.storage import DataFieldRecordArray
+    kw = dict(keep_fields=keep_s, dtype_conversions=conv_d, dtype_conversion_except_fields=exc_s)
+    if mode is not None:
+        kw['efficiency_mode'] = mode
+    try:
+        with warnings.catch_warnings():
+            warnings.simplefilter('ignore')
+            r = ldr.load_data(**kw)
+        if not isinstance(r, DataFieldRecordArray):
+            return ['Raw', None], r
+        return ['Ok', canon_table(r)], r
+    except Exception as ex:
+        return ['Err', exc_kind(ex)], None
+
+
+def history_l1(ctx, case, rng):
+    from skyllh.core.storage import create_FileLoader
+    specs = case['files']
+    alt = [permute_spec(f, rng) for f in specs]
+    if rng.random() < 0.5 and any(f is not None for f in alt):
+        alt = list(reversed(alt))
+    keep, conv, exc = case['keep'], case['conv'], case['exc']
+    fmts = [('npy', 'time'), ('npy', 'memory'), ('csv', None)] + ([('parquet', None)] if HAVE_PQ else [])
+    for fmt, mode in fmts:
+        site = f'FileLoader.load_data[history:{fmt}{"/" + mode if mode else ""}]'
+        cs = {'level': 1, 'files': specs, 'alt_files': alt, 'keep': keep, 'conv': conv, 'exc': exc, 'history': True}
+        pa_, pb_ = write_files(specs, fmt), write_files(alt, fmt)
+        try:
+            ctx.count('history:l1')
+            keep_s = None if keep is None else [NAMES[k] for k in keep]
+            conv_d = {DTYPES[a]: DTYPES[b] for a, b in conv}
+            exc_s = [NAMES[k] for k in exc]
+            snap = _copy.deepcopy((keep_s, conv_d, exc_s, list(pa_), list(pb_)))
+            hashes = _file_hashes(pa_ + pb_)
+            # fresh twins (one loader, one call each)
+            twin_a, _ = _loader_call(create_FileLoader(list(pa_)), _copy.deepcopy(keep_s), dict(conv_d), list(exc_s), mode)
+            twin_b, _ = _loader_call(create_FileLoader(list(pb_)), _copy.deepcopy(keep_s), dict(conv_d), list(exc_s), mode)
+            twin_a_all, _ = _loader_call(create_FileLoader(list(pa_)), None, {}, [], mode)
+            # two instances built before first use, called alternately with the SAME argument objects
+            la, lb = create_FileLoader(pa_), create_FileLoader(pb_)
+            a1, ra1 = _loader_call(la, keep_s, conv_d, exc_s, mode)
+            b1, rb1 = _loader_call(lb, keep_s, conv_d, exc_s, mode)
+            a2, ra2 = _loader_call(la, keep_s, conv_d, exc_s, mode)         # repeat
+            x, rx = _loader_call(la, None, {}, [], mode)                      # interleave: other arguments
+            other_mode = {'time': 'memory', 'memory': 'time'}.get(mode)
+            if other_mode:
+                _loader_call(la, keep_s, conv_d, exc_s, other_mode)          # interleave: other mode
+            # interleave: the same conversion keys with other targets, another keep list of the same length
+            conv2 = {k: DTYPES[(DT_CODE[v] + 1) % 4] for k, v in conv_d.items()}
+            fn_all = [NAMES[n] for n, d in (specs[0]['sch'] if specs and specs[0] else [])]
+            keep2 = None if keep_s is None else ([n for n in fn_all if n not in keep_s] + list(keep_s))[:len(keep_s)]
+            y, _ = _loader_call(la, keep2, conv2, exc_s, mode)
+            twin_y, _ = _loader_call(create_FileLoader(list(pa_)), keep2, dict(conv2), list(exc_s), mode)
+            if y != twin_y:
+                ctx.violation(site, 'interleaved-call-differs', 'a call with other conversion targets / keep names on a used loader '
+                              'differs from a fresh loader', case=cs, impl={'got': y, 'twin': twin_y})
+            b2, rb2 = _loader_call(lb, keep_s, conv_d, exc_s, mode)
+            a3, ra3 = _loader_call(la, keep_s, conv_d, exc_s, mode)
+            if a1 != twin_a or b1 != twin_b:
+                ctx.violation(site, 'two-loaders-interfere', 'first calls of two loaders built before use differ from fresh loaders',
+                              case=cs, impl={'a': a1, 'twin_a': twin_a, 'b': b1, 'twin_b': twin_b})
+            if a2 != a1:
+                ctx.violation(site, 'second-call-differs', 'the same loader called twice with the same arguments returns different results',
+                              case=cs, impl={'first': a1, 'second': a2})
+            if a3 != twin_a or b2 != twin_b or x != twin_a_all:
+                ctx.violation(site, 'interleaved-call-differs', 'a call after other calls (other arguments / mode / loader) differs from a fresh loader',
+                              case=cs, impl={'a3': a3, 'twin_a': twin_a, 'b2': b2, 'twin_b': twin_b, 'x': x, 'twin_all': twin_a_all})
+            # twin-independent (module-level state would spoil a fresh twin as well): the last call vs the generated tables
+            want = oracle_l1(case, force_f64=(fmt == 'csv'))
+            if want and (fmt != 'parquet' or same_schema(specs)) and a3 != ['Ok', want]:
+                ctx.violation(site, 'wrong-table-after-history', 'after a history of calls the result is not the table of the files',
+                              case=cs, impl=a3, model=want)
+            # results are owned by the caller
+            if ra1 is not None and a1[0] == 'Ok' and canon_table(ra1) != a1[1]:
+                ctx.violation(site, 'earlier-result-changed', 'the result of the first call changed during later calls', case=cs,
+                              impl={'first_then': a1, 'first_now': ['Ok', canon_table(ra1)]})
+            for (r1, r2) in ((ra1, ra2), (ra1, ra3), (ra1, rx), (rb1, rb2)):
+                if r1 is not None and r2 is not None:
+                    for n1 in r1.field_name_list:
+                        for n2 in r2.field_name_list:
+                            if len(r1[n1]) and np.shares_memory(r1[n1], r2[n2]):
+                                ctx.violation(site, 'results-share-memory', 'results of different calls share memory', case=cs,
+                                              impl={'fields': [n1, n2]})
+            # damage the first result, load again
+            if ra1 is not None:
+                for n1 in ra1.field_name_list:
+                    if ra1[n1].flags.writeable and len(ra1[n1]):
+                        ra1[n1][...] = 99
+                a4, _ = _loader_call(la, keep_s, conv_d, exc_s, mode)
+                if a4 != twin_a:
+                    ctx.violation(site, 'result-aliases-loader-state', 'writing into a returned table changes the next load', case=cs,
+                                  impl={'after': a4, 'twin': twin_a})
+            # the loader re-used for another file list and back
+            la.pathfilename_list = pb_
+            c1, _ = _loader_call(la, keep_s, conv_d, exc_s, mode)
+            la.pathfilename_list = pa_
+            c2, _ = _loader_call(la, keep_s, conv_d, exc_s, mode)
+            if c1 != twin_b or c2 != twin_a:
+                ctx.violation(site, 'stale-after-pathfilename-list-change', 'a loader given another file list does not load like a fresh loader',
+                              case=cs, impl={'on_b': c1, 'twin_b': twin_b, 'back_on_a': c2, 'twin_a': twin_a})
+            # arguments and files are inputs
+            if (keep_s, conv_d, exc_s, list(pa_), list(pb_)) != snap:
+                ctx.violation(site, 'argument-modified', 'keep_fields / dtype_conversions / except fields / path list modified by load_data',
+                              case=cs, impl={'now': repr((keep_s, conv_d, exc_s)), 'before': repr(snap[:3])})
+            if _file_hashes(pa_ + pb_) != hashes:
+                ctx.violation(site, 'file-modified', 'a data file changed on disk while being loaded', case=cs)
+        finally:
+            cleanup(pa_ + pb_)
+
+
+def build_dataset(case, fmt, cfg=None):
+    """the real Dataset for a level-2 case (files written; caller cleans up)"""
+    from skyllh.core.config import Config
+    from skyllh.core.dataset import Dataset
+    if cfg is None:
+        cfg = Config()
+        cfg['repository']['download_from_origin'] = False
+        cfg['datafields'].clear()
+        for n, m in case['cfg']:
+            cfg['datafields'][NAMES[n]] = m
+    pe = write_files(case['exp'], fmt)
+    pm = write_files(case['mc'], fmt)
+    ds = Dataset(cfg=cfg, name='verif', exp_pathfilenames=pe or None, mc_pathfilenames=pm or None,
+                 livetime=case['livetime'], default_sub_path_fmt='', version=1, base_path=tmpdir())
+    ds.datafields = {NAMES[n]: m for n, m in case['dsf']}
+    ds.exp_field_name_renaming_dict = {NAMES[a]: NAMES[b] for a, b in case['exp_ren']}
+    ds.mc_field_name_renaming_dict = {NAMES[a]: NAMES[b] for a, b in case['mc_ren']}
+    for f in make_prep(case['prep']):
+        ds.add_data_preparation(f)
+    return ds, cfg, pe + pm
+
+
+def ds_kwargs(case, mode):
+    return dict(keep_fields=[NAMES[k] for k in case['keep']],
+                dtc_dict={DTYPES[a]: DTYPES[b] for a, b in case['conv']},
+                dtc_except_fields=None if case['exc'] is None else [NAMES[k] for k in case['exc']],
+                efficiency_mode=mode)
+
+
+def ds_call(ds, kw, prepare=True):
+    try:
+        with warnings.catch_warnings():
+            warnings.simplefilter('ignore')
+            d = ds.load_and_prepare_data(**kw) if prepare else ds.load_data(**kw)
+        lt = d.livetime
+        return ['Ok', None if d.exp is None else [tuple(c) for c in canon_table(d.exp)],
+                None if d.mc is None else [tuple(c) for c in canon_table(d.mc)],
+                None if lt is None else int(lt)], d
+    except Exception as ex:
+        return ['Err', exc_kind(ex)], None
+
+
+def ds_state(ds, cfg):
+    return _copy.deepcopy((dict(ds.datafields), dict(ds.exp_field_name_renaming_dict), dict(ds.mc_field_name_renaming_dict),
+                           list(ds.exp_pathfilename_list), list(ds.mc_pathfilename_list), dict(cfg['datafields']), ds.livetime))
+
+
+def history_l2(ctx, case, other, rng):
+    """`other`: a second level-2 case; its Dataset shares the Config of the first"""
+    fmts = ['npy', 'csv'] + (['parquet'] if HAVE_PQ else [])
+    fmt = rng.choice(fmts)
+    mode = rng.choice(['time', 'memory']) if fmt == 'npy' else None
+    site = f'Dataset.load_and_prepare_data[history:{fmt}]'
+    other = dict(other, cfg=case['cfg'])            # shares the Config
+    cs = {'level': 2, 'history': True, 'fmt': fmt, 'mode': mode, 'case': case, 'other': other}
+    ctx.count('history:l2')
+    paths = []
+    try:
+        twin_a = impl_dataset(case, fmt, mode, True)
+        twin_a_ld = impl_dataset(case, fmt, mode, False)
+        twin_b = impl_dataset(other, fmt, mode, True)
+        wide = dict(case, keep=list(range(len(NAMES))), conv=[], exc=None)
+        twin_wide = impl_dataset(wide, fmt, mode, True)
+        # two Datasets sharing one Config, built before first use
+        dsa, cfg, p1 = build_dataset(case, fmt)
+        dsb, _, p2 = build_dataset(other, fmt, cfg=cfg)
+        paths = p1 + p2
+        kwa, kwb = ds_kwargs(case, mode), ds_kwargs(other, mode)
+        snap_kw = _copy.deepcopy((kwa, kwb))
+        st_a, st_b = ds_state(dsa, cfg), ds_state(dsb, cfg)
+        hashes = _file_hashes(paths)
+        a1, da1 = ds_call(dsa, kwa)
+        b1, db1 = ds_call(dsb, kwb)
+        a2, da2 = ds_call(dsa, kwa)                                  # the same Dataset loaded twice, same argument objects
+        w, _ = ds_call(dsa, ds_kwargs(wide, mode))                    # interleave: other keep_fields / no conversion
+        ld, _ = ds_call(dsa, kwa, prepare=False)                      # interleave: load_data
+        b2, db2 = ds_call(dsb, kwb)
+        a3, da3 = ds_call(dsa, kwa)
+        if a1 != twin_a or b1 != twin_b:
+            ctx.violation(site, 'datasets-sharing-config-interfere', 'two datasets sharing one Config differ from datasets with their own Config',
+                          case=cs, impl={'a': a1, 'twin_a': twin_a, 'b': b1, 'twin_b': twin_b})
+        if a2 != a1:
+            ctx.violation(site, 'second-load-differs', 'one Dataset loaded twice with the same arguments gives different results',
+                          case=cs, impl={'first': a1, 'second': a2})
+        if a3 != twin_a or b2 != twin_b or w != twin_wide or ld != twin_a_ld:
+            ctx.violation(site, 'interleaved-load-differs', 'a load after other loads (other arguments / other dataset / load_data) differs from a fresh Dataset',
+                          case=cs, impl={'a3': a3, 'twin_a': twin_a, 'b2': b2, 'twin_b': twin_b, 'wide': w, 'twin_wide': twin_wide,
+                                         'load_data': ld, 'twin_load_data': twin_a_ld})
+        if (kwa, kwb) != snap_kw:
+            ctx.violation(site, 'argument-modified', 'keep_fields / dtc_dict / dtc_except_fields modified by the load', case=cs,
+                          impl={'now': repr((kwa, kwb)), 'before': repr(snap_kw)})
+        if ds_state(dsa, cfg) != st_a or ds_state(dsb, cfg) != st_b:
+            ctx.violation(site, 'dataset-or-config-modified', 'stage tables / renaming dictionaries / file lists / Config changed by loading',
+                          case=cs, impl={'now': repr(ds_state(dsa, cfg)), 'before': repr(st_a)})
+        if _file_hashes(paths) != hashes:
+            ctx.violation(site, 'file-modified', 'a data file changed on disk while being loaded', case=cs)
+        # results are owned by the caller
+        if da1 is not None:
+            now = ['Ok', None if da1.exp is None else [tuple(c) for c in canon_table(da1.exp)],
+                   None if da1.mc is None else [tuple(c) for c in canon_table(da1.mc)], a1[3]]
+            if now != a1:
+                ctx.violation(site, 'earlier-result-changed', 'the DatasetData of the first load changed during later loads', case=cs,
+                              impl={'then': a1, 'now': now})
+            for t in (da1.exp, da1.mc):
+                if t is not None:
+                    for n1 in t.field_name_list:
+                        if t[n1].flags.writeable and len(t[n1]):
+                            t[n1][...] = 99
+            a4, _ = ds_call(dsa, kwa)
+            if a4 != twin_a:
+                ctx.violation(site, 'result-aliases-dataset-state', 'writing into returned data changes the next load', case=cs,
+                              impl={'after': a4, 'twin': twin_a})
+        # mutate-then-observe: the other case's declarations moved onto dataset A
+        moved = dict(case, dsf=other['dsf'], exp_ren=other['exp_ren'], mc_ren=other['mc_ren'])
+        dsa.datafields = {NAMES[n]: m for n, m in moved['dsf']}
+        dsa.exp_field_name_renaming_dict = {NAMES[a]: NAMES[b] for a, b in moved['exp_ren']}
+        dsa.mc_field_name_renaming_dict = {NAMES[a]: NAMES[b] for a, b in moved['mc_ren']}
+        m1, _ = ds_call(dsa, kwa)
+        twin_m = impl_dataset(moved, fmt, mode, True)
+        if m1 != twin_m:
+            ctx.violation(site, 'stale-after-datafields-or-renaming-change', 'after setting datafields / renaming dictionaries the Dataset '
+                          'does not load like a fresh one with that state', case=cs, impl={'got': m1, 'twin': twin_m})
+        # same old names renamed to other new names (requested through keep_fields), twice
+        part = 'exp' if case['exp'] and case['exp'][0] else ('mc' if case['mc'] and case['mc'][0] else None)
+        if part:
+            used = {n for f in case['exp'] + case['mc'] if f for n, d in f['sch']} | {n for n, m in moved['cfg'] + moved['dsf']}
+            free = [n for n in range(len(NAMES)) if n not in used]
+            if len(free) >= 2:
+                a_ = case[part][0]['sch'][0][0]
+                for tgt in free[:2]:
+                    ren = [[a_, tgt]]
+                    rcase = dict(moved, exp_ren=ren, mc_ren=ren, keep=[tgt])
+                    dsa.exp_field_name_renaming_dict = {NAMES[a_]: NAMES[tgt]}
+                    dsa.mc_field_name_renaming_dict = {NAMES[a_]: NAMES[tgt]}
+                    r1, _ = ds_call(dsa, ds_kwargs(rcase, mode))
+                    twin_r = impl_dataset(rcase, fmt, mode, True)
+                    # independent of any twin (module-level state would spoil a twin too):
+                    # the renamed field was requested, so it must be there with the file column
+                    if r1[0] == 'Ok':
+                        tbl = r1[1] if part == 'exp' else r1[2]
+                        fl = case[part]
+                        if tbl is not None and all(f is not None and a_ in [n for n, d in f['sch']] for f in fl):
+                            want = [r[[n for n, d in f['sch']].index(a_)] for f in fl for r in rows_of(f)]
+                            got = [v for (n, d, v) in tbl if n == tgt]
+                            if got != [want]:
+                                ctx.violation(site, 'renamed-requested-field-wrong', 'a field renamed to a requested name is absent or '
+                                              'does not hold the file column', case=cs, impl={'got': r1, 'ren': ren, 'want': want[:50]})
+                    if r1 != twin_r:
+                        ctx.violation(site, 'stale-after-renaming-retarget', 'after renaming the same old name to another new name the Dataset '
+                                      'does not load like a fresh one', case=cs, impl={'got': r1, 'twin': twin_r, 'ren': ren})
+                moved = dict(moved, exp_ren=[[a_, free[1]]], mc_ren=[[a_, free[1]]])
+        # ... and a change of the shared Config's stage table
+        if case['cfg']:
+            n0, m0 = case['cfg'][0]
+            cfg['datafields'][NAMES[n0]] = m0 ^ 4
+            moved2 = dict(moved, cfg=[[n0, m0 ^ 4]] + [list(x) for x in case['cfg'][1:]])
+            m2, _ = ds_call(dsa, kwa)
+            twin_m2 = impl_dataset(moved2, fmt, mode, True)
+            if m2 != twin_m2:
+                ctx.violation(site, 'stale-after-config-change', 'after changing cfg[datafields] the Dataset does not load like a fresh one',
+                              case=cs, impl={'got': m2, 'twin': twin_m2})
+    finally:
+        cleanup(paths)
+
+
+def run_history(ctx, cases, rng):
+    l1 = [c for c in cases if c['level'] == 1 and not is_big(c)]
+    l2 = [c for c in cases if c['level'] == 2 and not is_big(c)]
+    n1 = ctx.budget(30, 150)
+    n2 = ctx.budget(40, 200)
+    for c in l1[:n1]:
+        history_l1(ctx, c, rng)
+    for i, c in enumerate(l2[:n2]):
+        history_l2(ctx, c, l2[(i + 1) % len(l2)], rng)
+
+
 # ---------------------------------------------------------------- generators
 def gen_rows(rng, k, n):
     return [[rng.randint(-1000, 1000) if rng.random() < 0.9 else rng.choice([0, 2 ** 20, -2 ** 20, 2 ** 23])
@@ -885,10 +1209,22 @@ def run(ctx):
     ctx.sample({'level-1 example': cases[4 + len(bigs)]})
     ctx.sample({'level-2 example': cases[-1]})
     run_cases(ctx, cases, 'c17')
+    run_history(ctx, cases, random_for_history(ctx))
+
+
+def random_for_history(ctx):
+    import random
+    return random.Random(ctx.seed * 7919 + 17)
 
 
 def replay(ctx, rp):
     c = rp.get('case') or {}
+    if c.get('history'):
+        rng = random_for_history(ctx)
+        if c['level'] == 1:
+            c.setdefault('badmode', False)
+            return history_l1(ctx, c, rng)
+        return history_l2(ctx, c['case'], c['other'], rng)
     if 'level' not in c:
         ctx.notes.append('replay file has no concrete input (broken obligation): re-running the full check')
         return run(ctx)
